@@ -18,7 +18,9 @@ from .algos_run import _RunC09, plscf_algo, ssi_algo
 class _RunSSIArgs(Contract):
     callable_modular = False
     generic_replay = False
-    props = ("C01", "C12")
+    props = ("C01", "C12", "C17")
+    prop_clauses = {"C17": lambda oid: "/post.unc: " in oid or "factor T" in oid or "/post.calc_unc" in oid or "/post.nb" in oid or "-called" in oid
+                    or "no-exception" in oid}
     use = dict(_RunC09.use)
     cls = "SSIdat"
     n_refs = 0          # 0: ref_ind is None
@@ -76,6 +78,10 @@ class _RunSSIArgs(Contract):
         c.oblige("post", "SSI_fast receives build_hank's H", f["H"] is g["H_out"])
         c.oblige("post", "SSI_fast: br / ordmax", And_(sym.eq(f["br"], rp["br"]), sym.eq(f["ordmax"], rp["ordmax"])))
         c.oblige("post", "SSI_fast receives build_hank's factor T", f["T"] is g["T_out"])
+        # uncertainty chain (C17): the factor, the switch and the block count reach SSI_fast; its four sensitivity matrices and the switch
+        # reach SSI_poles; what SSI_poles reports as variances is what the run stores (the hard criteria only blank entries: C09)
+        c.oblige("post", "unc: SSI_fast receives the run's calc_unc", f["calc_unc"] is rp["calc_unc"] or sym.same(f["calc_unc"], rp["calc_unc"]))
+        c.oblige("post", "unc: SSI_fast receives the run's nb", sym.eq(f["nb"], rp["nb"]))
         p_ = c.memo.get("ghost:SSI_poles")
         c.oblige("post", "SSI_poles-called", p_ is not None)
         if p_ is None:
@@ -83,6 +89,9 @@ class _RunSSIArgs(Contract):
         c.oblige("post", "SSI_poles receives SSI_fast's Obs, A, C", all(isinstance(p_[k], sym.Opaque) and p_[k].tag == t for k, t in (("Obs", "Obs"), ("AA", "A"), ("CC", "C"))))
         c.oblige("post", "SSI_poles: dt = the algorithm's dt", sym.same(p_["dt"], slf["dt"]))
         c.oblige("post", "SSI_poles: ordmax", sym.eq(p_["ordmax"], rp["ordmax"]))
+        c.oblige("post", "unc: SSI_poles receives the run's calc_unc", p_["calc_unc"] is rp["calc_unc"] or sym.same(p_["calc_unc"], rp["calc_unc"]))
+        c.oblige("post", "unc: SSI_poles receives SSI_fast's Q1, Q2, Q3, Q4 in this order",
+                 all(isinstance(q, sym.Opaque) and q.tag == t for q, t in zip(p_["Q"], ("Q1", "Q2", "Q3", "Q4"))), {"Q": str(p_["Q"])[:120]})
         R = outcome[1].fields
         c.oblige("post", "result.H / Obs / A / C are the kernels' outputs", R.get("H") is g["H_out"] and all(
             isinstance(R.get(k), sym.Opaque) and R[k].tag == k for k in ("Obs", "A", "C")))
